@@ -222,3 +222,25 @@ Definition kind2 (i : nat) : bkind := if i =? 0 then KInf else KTrain.
 
 Definition accepted (i : sysin) (tr : trace) : bool :=
   match run 2 kind2 (s_attempts i) (s_qmax i) true init tr with Some _ => true | None => false end.
+
+(* ---------- C17 cases: a whole run, or one row of the status decision table ---------- *)
+Inductive c17case :=
+| C17Run (i : sysin) (tr : trace)
+| C17Table (sh rs : bool) (flags : list bool) (obs : status).
+
+Definition status_eqb (a b : status) : bool :=
+  match a, b with
+  | StActive, StActive | StPausing, StPausing | StPaused, StPaused | StResuming, StResuming | StShuttingDown, StShuttingDown => true
+  | _, _ => false
+  end.
+
+Definition c17_agree (c : c17case) : bool :=
+  match c with
+  | C17Run i tr => accepted i tr
+  | C17Table sh rs flags obs => status_eqb (status_of sh rs flags) obs
+  end.
+Definition c17_prop_ok (c : c17case) : bool :=
+  match c with
+  | C17Run i tr => C17_ok tr
+  | C17Table sh rs flags obs => status_eqb (status_of sh rs flags) obs
+  end.
